@@ -91,10 +91,9 @@ func pruneDocNulls(doc *partialDoc, options *ApplyOptions) *partialDoc {
 func pruneAryNulls(ary *partialArray, options *ApplyOptions) *partialArray {
 	newAry := []*lazyNode{}
 
+	// RFC 7396 treats arrays as opaque values: elements are kept as they are,
+	// including null members of objects inside the array.
 	for _, v := range ary.nodes {
-		if v != nil {
-			pruneNulls(v, options)
-		}
 		newAry = append(newAry, v)
 	}
 
